@@ -67,7 +67,13 @@ SizeClasses   == {"truncated", "negsize", "absurdsize", "nonnumsize"}
 \*   cut  : the file ends at an exact cut point of the last entry (raw, uripost), arg = <<point, passes>>
 \*   long : >= 300 well-formed grpc/json lines with undecodable lines at position 2 and at every multiple of
 \*          `period`, several passes, continue-on-error; arg = <<lines, period, passes>>
-ParamAmmoClasses == {"cut", "long"}
+\*   rerun: a representative item (arg[1] = class of the item) read with passes 2..3 and a limit:
+\*          arg = <<item class, passes, limit>> (limit 0 = none).  The reader re-opens the file for every pass:
+\*          pass k delivers what pass 1 delivered, the item is met (and the run fails) in pass 1 unless the limit
+\*          stops the reader before it gets there; whole-file readers meet it while loading, whatever the limit.
+ParamAmmoClasses == {"cut", "long", "rerun"}
+RerunBad(f) == CASE f = "uri" -> "hdr_nocolon" [] f = "uripost" -> "negsize" [] f = "raw" -> "nonnumsize" [] OTHER -> "badjson"
+RerunArgs(f) == { <<b, p, l>> : b \in {"none", RerunBad(f)}, p \in 2..3, l \in {0, 1, 3, 5} }
 CutPoints == {"sizeline_mid",      \* inside the size line itself
               "sizeline_nonl",     \* the whole size line, no newline, no body
               "sizeline",          \* size line + newline, ZERO body bytes
@@ -94,6 +100,7 @@ Applies(f, c) ==
       [] c = "size0"         -> f = "uripost"
       [] c = "cut"           -> f \in {"uripost", "raw"}
       [] c = "long"          -> f = "grpcjson"
+      [] c = "rerun"         -> TRUE
       [] c = "hdr_late"      -> f \in {"uri", "uripost"}
       [] c \in HeaderClasses -> f \in {"uri", "uripost"}
       [] c \in JsonClasses   -> f \in {"jsonline", "jsonarray", "grpcjson"}
@@ -126,9 +133,12 @@ Verdict(f, c) ==
 \* ("mustskip": the undecodable lines of a long continue-on-error file are stepped over, one by one)
 VerdictC(c) == IF c.cls = "cut" THEN (IF c.arg[1] = "body_nonl" THEN "deliver" ELSE "reject")
                ELSE IF c.cls = "long" THEN "mustskip"
+               ELSE IF c.cls = "rerun" THEN Verdict(c.format, c.arg[1])
                ELSE Verdict(c.format, c.cls)
 \* file passes requested from the provider
-NPasses(c) == IF c.cls = "cut" THEN c.arg[2] ELSE IF c.cls = "long" THEN c.arg[3] ELSE 1
+NPasses(c) == IF c.cls \in {"cut", "rerun"} THEN c.arg[2] ELSE IF c.cls = "long" THEN c.arg[3] ELSE 1
+\* limit on the number of deliveries (0: none)
+Limit(c) == IF c.cls = "rerun" THEN c.arg[3] ELSE 0
 
 \* continue-on-error can step over an item only when the reader can find the next one:
 \* a line that decodes badly, not a line the scanner could not even produce
@@ -205,7 +215,7 @@ DescTable == [
 DescClasses == DOMAIN DescTable
 
 \* a config value has a single stage
-LastStage(t) == IF t = "config" THEN 1 ELSE 4
+LastStage(t) == IF t = "config" THEN 1 ELSE IF t = "pool" THEN 2 ELSE 4
 
 -----------------------------------------------------------------------------
 (* The case space *)
@@ -218,6 +228,9 @@ AmmoCases ==
     { [kind |-> "ammo", format |-> f, mode |-> m, np |-> np, cls |-> "cut", nt |-> 0, arg |-> a] :
         f \in {"uripost", "raw"}, m \in Modes("uri"), np \in 0..MaxPrefix, a \in CutArgs }
     \cup
+    UNION { { [kind |-> "ammo", format |-> f, mode |-> m, np |-> np, cls |-> "rerun", nt |-> nt, arg |-> a] :
+                m \in Modes(f) \ {"continue"}, np \in 0..2, nt \in 0..1, a \in RerunArgs(f) } : f \in Formats }
+    \cup
     { [kind |-> "ammo", format |-> "grpcjson", mode |-> "continue", np |-> 0, cls |-> "long", nt |-> 0, arg |-> a] :
         a \in LongArgs }
 
@@ -227,6 +240,7 @@ AmmoCaseOK(c) ==
     /\ (c.cls \in {"none", "hdr_late"} => c.np + c.nt > 0)   \* the file without entries is C08's subject
     /\ (c.cls \in EofClasses => c.nt = 0)
     /\ (c.cls = "cut"  => c.nt = 0 /\ c.arg \in CutArgs)
+    /\ (c.cls = "rerun" => c.mode \in {"stream", "preload"} /\ c.arg \in RerunArgs(c.format))
     /\ (c.cls = "long" => c.np = 0 /\ c.nt = 0 /\ c.mode = "continue" /\ c.arg \in LongArgs)
     /\ (c.cls \notin ParamAmmoClasses => c.arg = <<>>)
 
@@ -275,7 +289,50 @@ NumTokens == {"minint", "m1", "z", "p1", "maxint"}
 FuncArgs  == { <<"randInt", a, b, w>> : a \in NumTokens, b \in NumTokens, w \in {"var", "map"} }
              \cup { <<"randString", a, "-", w>> : a \in NumTokens \ {"maxint"}, w \in {"var", "map"} }
 
+\* (d) POOL-level sections of a complete pandora configuration read the way the CLI reads it (viper, readConfig,
+\*     DecodeAndValidate with every real plugin registered) and, if that succeeds, run by a real Engine.
+\*     Two pools; the first is well-formed, the second (index 1, id "pool-1") carries the defect.  Stages:
+\*     construct = readConfig returns, run = Engine.Run returns nil having shot.  at = where the defect is met
+\*     (provider / gun / startup schedule are built while decoding; the rps schedule is built per instance by a
+\*     factory, i.e. when the pool starts).  nm = how the error names the pool ("-": there is no pool to name).
+PoolTable == [
+    p_none                |-> [at |-> 0, v |-> "deliver", nm |-> "-"],
+    p_ammo_wrongtype      |-> [at |-> 1, v |-> "reject",  nm |-> "pools[1]"],
+    p_ammo_listvalue      |-> [at |-> 1, v |-> "reject",  nm |-> "pools[1]"],
+    p_ammo_neg            |-> [at |-> 1, v |-> "reject",  nm |-> "pools[1]"],
+    p_ammo_negsize        |-> [at |-> 1, v |-> "reject",  nm |-> "pools[1]"],
+    p_ammo_unknown_type   |-> [at |-> 1, v |-> "reject",  nm |-> "pools[1]"],
+    p_ammo_empty_type     |-> [at |-> 1, v |-> "reject",  nm |-> "pools[1]"],
+    p_ammo_unknown_key    |-> [at |-> 1, v |-> "reject",  nm |-> "pools[1]"],
+    p_ammo_scalar         |-> [at |-> 1, v |-> "reject",  nm |-> "pools[1]"],
+    p_ammo_null           |-> [at |-> 1, v |-> "reject",  nm |-> "pools[1]"],
+    p_ammo_missing        |-> [at |-> 1, v |-> "reject",  nm |-> "pools[1]"],
+    p_ammo_nofile         |-> [at |-> 1, v |-> "reject",  nm |-> "pools[1]"],
+    p_gun_unknown_type    |-> [at |-> 1, v |-> "reject",  nm |-> "pools[1]"],
+    p_gun_wrongtype       |-> [at |-> 1, v |-> "reject",  nm |-> "pools[1]"],
+    p_gun_unknown_key     |-> [at |-> 1, v |-> "reject",  nm |-> "pools[1]"],
+    p_gun_scalar          |-> [at |-> 1, v |-> "reject",  nm |-> "pools[1]"],
+    p_gun_badtarget       |-> [at |-> 1, v |-> "reject",  nm |-> "pools[1]"],
+    p_startup_neg         |-> [at |-> 1, v |-> "reject",  nm |-> "pools[1]"],
+    p_result_unknown_type |-> [at |-> 1, v |-> "reject",  nm |-> "pools[1]"],
+    p_pool_scalar         |-> [at |-> 1, v |-> "reject",  nm |-> "pools[1]"],
+    p_pool_null           |-> [at |-> 1, v |-> "reject",  nm |-> "pools[1]"],
+    p_pool_list           |-> [at |-> 1, v |-> "reject",  nm |-> "pools[1]"],
+    p_rps_neg             |-> [at |-> 2, v |-> "reject",  nm |-> "pool-1"],
+    p_rps_wrongtype       |-> [at |-> 2, v |-> "reject",  nm |-> "pool-1"],
+    p_rps_negduration     |-> [at |-> 2, v |-> "reject",  nm |-> "pool-1"],
+    p_pools_scalar        |-> [at |-> 1, v |-> "reject",  nm |-> "-"],
+    p_pools_map           |-> [at |-> 1, v |-> "reject",  nm |-> "-"],
+    p_pools_missing       |-> [at |-> 1, v |-> "reject",  nm |-> "-"],
+    p_pools_null          |-> [at |-> 1, v |-> "reject",  nm |-> "-"]
+]
+PoolClasses == DOMAIN PoolTable
+PoolCases == { [kind |-> "desc", format |-> "pool", mode |-> "-", np |-> 0, cls |-> c, nt |-> 0, arg |-> <<>>] : c \in PoolClasses }
+\* the name the rejection must carry ("-": none)
+NameOf(c) == IF c.format = "pool" THEN PoolTable[c.cls].nm ELSE "-"
+
 ParamCases ==
+    PoolCases \cup
     { [kind |-> "desc", format |-> t, mode |-> "-", np |-> 0, cls |-> "tfunc", nt |-> 0, arg |-> a] :
         t \in ScenarioTargets, a \in FuncArgs }
     \cup
@@ -287,7 +344,8 @@ ParamCases ==
 
 \* [t, at, v] of any description case
 DescInfo(c) ==
-    CASE c.cls = "reqlist" -> LET v == ReqListVerdict(c.arg) IN
+    CASE c.format = "pool" -> [t |-> {"pool"}, at |-> PoolTable[c.cls].at, v |-> PoolTable[c.cls].v]
+      [] c.cls = "reqlist" -> LET v == ReqListVerdict(c.arg) IN
                               [t |-> ScenarioTargets, at |-> IF v = "deliver" THEN 0 ELSE 1, v |-> v]
       [] c.cls = "index"   -> LET v == IndexVerdict(c.arg) IN
                               [t |-> ScenarioTargets, at |-> IF v = "deliver" THEN 0 ELSE 3, v |-> v]
@@ -303,7 +361,8 @@ IsCase(c) ==
            /\ c.format \in Formats /\ c.cls \in AmmoClasses /\ c.np \in 0..MaxPrefix /\ c.nt \in 0..MaxTrail
            /\ AmmoCaseOK(c)
        ELSE /\ c.kind = "desc" /\ c.mode = "-" /\ c.np = 0 /\ c.nt = 0
-            /\ CASE c.cls = "reqlist" -> /\ c.format \in ScenarioTargets
+            /\ CASE c.format = "pool" -> c.cls \in PoolClasses /\ c.arg = <<>>
+                 [] c.cls = "reqlist" -> /\ c.format \in ScenarioTargets
                                          /\ Len(c.arg) <= MaxReqLen
                                          /\ \A i \in 1..Len(c.arg) : c.arg[i] \in ReqTokens
                  [] c.cls = "index"   -> c.format \in ScenarioTargets /\ c.arg \in IndexArgs
@@ -342,7 +401,7 @@ Lead(c) == IF c.cls = "long" THEN (IF c.arg[2] = 0 THEN File(c) ELSE <<"1">>) EL
 (*   loaded : whole-file readers: "no" before the decode-everything step,  *)
 (*            then "with" / "without" the item in the loaded list          *)
 
-Start(c) == [pos |-> 1, out |-> <<>>, res |-> "run", loaded |-> "no", n |-> 0, pass |-> 1]
+Start(c) == [pos |-> 1, out |-> <<>>, res |-> "run", loaded |-> "no", n |-> 0, pass |-> 1, cnt |-> 0]
 
 Ev(kind, arg) == [ev |-> kind, arg |-> arg]
 
@@ -358,7 +417,7 @@ ItemVerdicts(c) ==
 
 \* whole-file readers: one decode step over the complete file (s.loaded: "no" -> "with" / "without" the
 \* item), then plain deliveries; streaming readers decide at the item
-Deliver1(s, id) == [e |-> Ev("Deliver", id), s |-> [s EXCEPT !.pos = @ + 1, !.out = Append(@, id)]]
+Deliver1(s, id) == [e |-> Ev("Deliver", id), s |-> [s EXCEPT !.pos = @ + 1, !.out = Append(@, id), !.cnt = @ + 1]]
 SkipItem(s)     == [e |-> Ev("Skip", "x"), s |-> [s EXCEPT !.pos = @ + 1]]
 Reject(s)       == [e |-> Ev("End", "rejected"),
                     s |-> [s EXCEPT !.res = "rejected", !.out = IF Variant = "loseprefix" THEN <<>> ELSE @]]
@@ -369,6 +428,9 @@ AmmoSucc(c, s) ==
             [] v = "deliver" -> [e |-> Ev("Load", "with"), s |-> [s EXCEPT !.loaded = "with"]]
             [] v \in {"skip", "silent"} -> [e |-> Ev("Load", "without"), s |-> [s EXCEPT !.loaded = "without"]]
           : v \in ItemVerdicts(c) }
+    ELSE IF Limit(c) > 0 /\ s.cnt >= Limit(c) THEN
+        \* the limit stops the reader before it looks at the next item
+        { [e |-> Ev("End", "accepted"), s |-> [s EXCEPT !.res = "accepted"]] }
     ELSE IF s.pos > FileLen(c) THEN
         \* end of the file: the next pass reads it again from the start (in-file headers forgotten), the last ends the run
         IF s.pass < NPasses(c)
@@ -394,8 +456,12 @@ DescSucc(c, s) ==
     ELSE IF s.pos # d.at THEN
         { [e |-> Ev("Stage", Stages[s.pos]), s |-> [s EXCEPT !.pos = @ + 1]] }
     ELSE
+        \* a pool-level rejection names the pool first (Variant "noname": negative control)
         (IF d.v \in {"reject", "either"} /\ Variant # "swallow"
-            THEN { [e |-> Ev("End", "rejected"), s |-> [s EXCEPT !.res = "rejected"]] } ELSE {})
+            THEN (IF NameOf(c) # "-" /\ s.loaded = "no" /\ Variant # "noname"
+                  THEN { [e |-> Ev("Named", NameOf(c)), s |-> [s EXCEPT !.loaded = "named"]] }
+                  ELSE { [e |-> Ev("End", "rejected"), s |-> [s EXCEPT !.res = "rejected"]] })
+            ELSE {})
         \cup
         (IF d.v \in {"deliver", "either"} \/ Variant = "swallow"
             THEN { [e |-> Ev("Stage", Stages[s.pos]), s |-> [s EXCEPT !.pos = @ + 1]] } ELSE {})
@@ -428,7 +494,15 @@ Without(seq, x) == SelectSeq(seq, LAMBDA y : y # x)
 WellFormed(c) == Without(File(c), "x")
 RECURSIVE Rep(_, _)
 Rep(seq, k) == IF k = 0 THEN <<>> ELSE seq \o Rep(seq, k - 1)
-Expected(c) == Rep(WellFormed(c), NPasses(c))
+Take(seq, k) == IF k >= Len(seq) THEN seq ELSE SubSeq(seq, 1, k)
+\* rerun: the item counts against the limit when it is an ordinary entry
+Delivered(c) == IF VerdictC(c) = "deliver" THEN File(c) ELSE WellFormed(c)
+Expected(c) == IF c.cls = "rerun"
+               THEN (IF Limit(c) > 0 THEN Take(Rep(Delivered(c), NPasses(c)), Limit(c)) ELSE Rep(Delivered(c), NPasses(c)))
+               ELSE Rep(WellFormed(c), NPasses(c))
+\* the limit ends the run before the reader reaches the item
+LimitCuts(c) == Limit(c) > 0 /\ ~AtLoad(c) /\ Limit(c) <= Len(Lead(c))
+Clean(c, out) == IF c.cls = "rerun" THEN out ELSE Without(out, "x")
 
 TypeOK ==
     /\ IsCase(cs)
@@ -439,14 +513,18 @@ TypeOK ==
 \* minus the item itself, is an initial part of the well-formed entries in file order
 \* (for the long files the check is made on the final state only - out only grows, so that implies the rest)
 PrefixUnchanged ==
-    (cs.kind = "ammo" /\ (cs.cls # "long" \/ st.res # "run")) => IsPrefixOf(Without(st.out, "x"), Expected(cs))
+    (cs.kind = "ammo" /\ (cs.cls # "long" \/ st.res # "run")) => IsPrefixOf(Clean(cs, st.out), Expected(cs))
 
 \* an input that must be rejected is never accepted unless continue-on-error was requested and applies
 NoSilentAccept ==
     (st.res = "accepted" /\ cs.kind = "ammo" /\ VerdictC(cs) = "reject")
-        => (cs.mode = "continue" /\ Skippable(cs.format, cs.cls))
+        => ((cs.mode = "continue" /\ Skippable(cs.format, cs.cls)) \/ LimitCuts(cs))
 NoSilentAcceptDesc ==
     (st.res = "accepted" /\ cs.kind = "desc") => DescInfo(cs).v # "reject"
+
+\* a rejected pool configuration has named the pool it rejects
+RejectedPoolIsNamed ==
+    (st.res = "rejected" /\ cs.kind = "desc" /\ NameOf(cs) # "-") => st.loaded = "named"
 
 \* a well-formed input is never rejected
 NoFalseReject ==
@@ -460,10 +538,10 @@ StreamDeliversPrefix ==
 
 \* accepted: every well-formed entry was delivered, in order
 AcceptedDeliversAll ==
-    (st.res = "accepted" /\ cs.kind = "ammo") => Without(st.out, "x") = Expected(cs)
+    (st.res = "accepted" /\ cs.kind = "ammo") => Clean(cs, st.out) = Expected(cs)
 
 \* no hang / no spinning: every step consumes an item or ends the run, so the number of steps (st.n) of
 \* any behaviour is bounded by the length of the input (+ load step + end step)
-Progress == st.n <= (IF cs.kind = "ammo" THEN (FileLen(cs) + 1) * NPasses(cs) + 1 ELSE LastStage(cs.format) + 1)
+Progress == st.n <= (IF cs.kind = "ammo" THEN (FileLen(cs) + 1) * NPasses(cs) + 1 ELSE LastStage(cs.format) + 2)
 
 =============================================================================
